@@ -6,11 +6,14 @@ import (
 	"github.com/vulcand/oxy/v2/zverif/c01"
 	"github.com/vulcand/oxy/v2/zverif/c02"
 	"github.com/vulcand/oxy/v2/zverif/c04"
+	"github.com/vulcand/oxy/v2/zverif/c09"
 	"github.com/vulcand/oxy/v2/zverif/c14"
 	"github.com/vulcand/oxy/v2/zverif/c18"
 )
 
 func init() {
+	parts["c09"] = c09.Run
+	finders["c09"] = c09.Find
 	parts["c18"] = c18.Run
 	replays["c18"] = c18.Replay
 	parts["c14s"] = c14.RunSched
